@@ -6,6 +6,7 @@ import (
 	"covr/internal/cases"
 	"covr/internal/e1"
 	"covr/internal/genr"
+	"covr/internal/render"
 	"covr/internal/verdict"
 )
 
@@ -44,14 +45,45 @@ func ctlStream(c *Ctx) []*e1.Program {
 
 // C11 — the compiler accepts the supported subset and its output builds.
 func C11(c *Ctx) {
-	progs := ctlStream(c)
-	c.Rep.Rule = "every supported-subset program of the E1 streams x import style; refuting observation = compiler panic or generated package that does not build. non-trivial = program accepted and executed; distinct = shape hash x tape."
+	base := ctlStream(c)
+	q := c.Rep.QuarantinedFeatures()
+	nscope, ndeleg, ncons := 120, 40, 60
+	if c.Thorough() {
+		nscope, ndeleg, ncons = 1500, 400, 800
+	}
+	base = append(base, cases.Fx()...)
+	base = append(base, cases.Scope()...)
+	base = append(base, cases.OptGen()...)
+	base = append(base, genr.Scope(nscope, c.Seed+5)...)
+	rg, _ := genr.Range(c.Seed+6, 150, q)
+	base = append(base, rg...)
+	// every standard program additionally in another generator form (method, generic, literal, nested literal),
+	// cycling through forms x import styles
+	var progs []*e1.Program
+	k := 0
+	for _, p := range base {
+		progs = append(progs, p)
+		form := 1 + k%(genr.NForms-1)
+		if c.Thorough() || k%2 == 0 {
+			if w := genr.WithForm(p, form); w != nil {
+				w.Style = render.Style((k / (genr.NForms - 1)) % int(render.NStyles))
+				progs = append(progs, w)
+			}
+		}
+		k++
+	}
+	progs = append(progs, cases.Opt()...)
+	progs = append(progs, cases.Deleg()...)
+	progs = append(progs, cases.Consumer()...)
+	progs = append(progs, genr.Deleg(ndeleg, c.Seed+7)...)
+	progs = append(progs, genr.Consumer(ncons, c.Seed+8)...)
+	c.Rep.Rule = "every supported-subset program of the E1 streams (control flow exhaustive + PRNG, fx, scope, range, delegation, consumer, optimiser/bystander cases) x 5 import styles (dot / default name / renamed / seq already imported under its default name or an alias) x 6 generator forms (function, method with value and pointer receiver, generic function, function literal, nested literal); refuting observation = panic of the stand-alone compile driver or a generated package that does not build without the co tag (attributed to one program by re-running it alone); accepted programs are also executed (a surviving Yield stub call is a violation). non-trivial = accepted and executed; distinct = shape hash x tape."
 	RunE1(c, E1Spec{
 		Programs:             progs,
-		Opts:                 e1.Opts{},
+		Opts:                 e1.Opts{MaxPaths: 16, Hist: []int{}},
 		Kinds:                []string{"STUB"},
 		AcceptanceViolations: true,
-		MinDistinct:          2,
+		MinDistinct:          500,
 	})
 }
 
